@@ -607,6 +607,20 @@ def predict_frame(v, old):
     return []
 
 
+def valq(m, ps, t, a):
+    """what training node t offers query a: max(cost(t), weight(t, a))"""
+    return vmax(m.subgraph.nodes[t].cost, WT(m, t, ps, a))
+
+
+def first_minimiser(m, ps, a, t, r):
+    """t sits at position r of the conquest order, minimises the offer over ALL training nodes, and every node at an
+    earlier position offers strictly more: the FIRST minimiser in conquest order - a function of (model, query)"""
+    sg = m.subgraph
+    n = length(sg.nodes)
+    return conj(le(0, r), lt(r, n), eq(sg.idx_nodes[r], t), optimal_for(m, ps, a, t),
+                forall(0, r, lambda s_: gt(valq(m, ps, sg.idx_nodes[s_], a), valq(m, ps, t, a))))
+
+
 def predict_outer(v, old, le_):
     m, sg, ps = v.self, v.self.subgraph, v.pred_subgraph
     npred = length(ps.nodes)
@@ -616,6 +630,7 @@ def predict_outer(v, old, le_):
         ("done", forall(0, v.i, lambda a: conj(optimal_for(m, ps, a, v.g_win[a]),
                                                eq(ps.nodes[a].predicted_label,
                                                   sg.nodes[v.g_win[a]].predicted_label)))),
+        ("done_first", forall(0, v.i, lambda a: first_minimiser(m, ps, a, v.g_win[a], v.g_winpos[a]))),
         ("query_static", forall(0, npred, lambda a: conj(eq(ps.nodes[a].features, v.X_val[a]),
                                                         ge(ps.nodes[a].idx, 0)))),
     ]
@@ -633,6 +648,9 @@ def predict_inner(v, old, le_):
                          eq(v.current_label, N[t].predicted_label))),
         ("prefix_min", forall(0, j + 1, lambda r: le(v.min_cost, vmax(N[ordl[r]].cost, WT(m, ordl[r], ps, i))))),
         ("conqueror", conj(le(0, v.conqueror), lt(v.conqueror, n), eq(v.conqueror, t))),
+        # the tracked sample is the first one of the scanned prefix that attains the minimum (updates are strict)
+        ("first", conj(le(0, v.g_tpos), le(v.g_tpos, j), eq(ordl[v.g_tpos], t),
+                       forall(0, v.g_tpos, lambda r: gt(valq(m, ps, ordl[r], i), v.min_cost)))),
     ]
 
 
@@ -652,7 +670,26 @@ def predict_ensures(v, old, result):
                           lambda a: exists(0, n, lambda t: conj(eq(result[a], N[t].predicted_label),
                                                                 optimal_for(m, ps, a, t))))),
         ("query_is_input", forall(0, length(v.X_val), lambda a: eq(ps.nodes[a].features, v.X_val[a]))),
-    ]
+    ] + ([] if MODE.kind != "sym" else [
+        # C09 (within one call): the answer is the label of the FIRST minimiser in conquest order, hence a function of
+        # the model and the sample alone - two queries that present the same sample get the same label, wherever they
+        # stand in the batch
+        ("first_minimiser", forall(0, length(v.X_val), lambda a: conj(
+            first_minimiser(m, ps, a, v.ghost("g_win", "list[int]")[a], v.ghost("g_winpos", "list[int]")[a]),
+            eq(result[a], N[v.ghost("g_win", "list[int]")[a]].predicted_label)))),
+        ("position_independent", forall(0, length(v.X_val), lambda a, b: implies(
+            same_sample(m, ps, a, b), eq(result[a], result[b])))),
+    ])
+
+
+def same_sample(m, ps, a, b):
+    """queries a and b present the same sample to the model: equal feature vectors when the metric is evaluated,
+    equal dataset indices when distances are looked up"""
+    pre = m.pre_computed_distance
+    if isinstance(pre, bool):
+        return eq(ps.nodes[a].idx, ps.nodes[b].idx) if pre else eq(ps.nodes[a].features, ps.nodes[b].features)
+    return conj(implies(pre, eq(ps.nodes[a].idx, ps.nodes[b].idx)),
+                implies(neg(pre), eq(ps.nodes[a].features, ps.nodes[b].features)))
 
 
 contract(S + "predict",
@@ -660,8 +697,9 @@ contract(S + "predict",
          props=["C03", "C17", "C09"],
          requires=predict_requires, ensures=predict_ensures,
          modifies=["self.subgraph.nodes.relevant"],
-         ghost=[("after:pred_subgraph = Subgraph(X_val, I=I_val)", "g_win = [0 for _ in range(pred_subgraph.n_nodes)]"),
-                ("after:current_label = self.subgraph.nodes[k].predicted_label", "g_t = k"),
-                ("after:conqueror = l", "g_t = l"),
-                ("after:pred_subgraph.nodes[i].predicted_label = current_label", "g_win[i] = g_t")],
+         ghost=[("after:pred_subgraph = Subgraph(X_val, I=I_val)",
+                 "g_win = [0 for _ in range(pred_subgraph.n_nodes)]\ng_winpos = [0 for _ in range(pred_subgraph.n_nodes)]"),
+                ("after:current_label = self.subgraph.nodes[k].predicted_label", "g_t = k\ng_tpos = j"),
+                ("after:conqueror = l", "g_t = l\ng_tpos = j + 1"),
+                ("after:pred_subgraph.nodes[i].predicted_label = current_label", "g_win[i] = g_t\ng_winpos[i] = g_tpos")],
          loops=[LoopSpec("for", var="i", inv=predict_outer), LoopSpec("while", inv=predict_inner)])
